@@ -45,6 +45,28 @@ PROBES = [
 ]
 
 
+# valid templates compiled with options of their own: what they configure is theirs alone (names of extra builtins that
+# other templates use as variables, boolean attribute sets, translation functions, expression types, a default marker)
+def _polluters(PageTemplate):
+    from functools import partial
+    from chameleon.tales import ProxyExpr
+
+    class Site(PageTemplate):
+        expression_types = dict(PageTemplate.expression_types, up=partial(ProxyExpr, "__up"))
+    up = {"__up": str.upper}
+    return [
+        lambda: PageTemplate('<p>${a(1)} ${g} ${x}</p>', extra_builtins={"a": str, "g": "G", "x": "X", "fmt": format, "n": 1, "k": 2, "y": 3, "d": 4})(),
+        lambda: PageTemplate('<input checked="${a}" title="${a}" />', boolean_attributes={"title", "value", "class"})(a=1),
+        lambda: PageTemplate('<p i18n:translate="">t</p>', translate=lambda msgid, **kw: "POLLUTED")(),
+        lambda: Site('<p tal:content="up:abc">x</p>', extra_builtins=up)(),
+        lambda: PageTemplate('<p tal:content="default">d</p><i tal:attributes="class default" class="c" />', default_marker="MARK")(),
+        lambda: PageTemplate('<p>${a}</p>', default_expression="string")(a=1),
+        lambda: PageTemplate('<p tal:content="a">x</p>', strict=False, trim_attribute_space=True, enable_data_attributes=True,
+                             restricted_namespace=False, implicit_i18n_translate=True, implicit_i18n_attributes={"title", "class"})(a=1),
+        lambda: PageTemplate('<a title="x" class="c">${a}</a>', encoding="latin-1", on_error_handler=lambda e: None)(a=b"\xe9"),
+    ]
+
+
 def _tr(msgid, domain=None, mapping=None, context=None, target_language=None, default=None):
     out = "T[%s|%s|%s|%s]" % (msgid, domain, context, target_language)
     for k, v in (mapping or {}).items():
@@ -96,4 +118,19 @@ def run(ctx, label):
                                       label, src, (PROBES[k][0] if k < len(PROBES) else "(text template)"), after[k], base[k]),
                                   dict(kind="isolation", rejected=src, probe=(PROBES[k][0] if k < len(PROBES) else "text"), got=after[k], want=base[k]))
                     return n
+    for k, pol in enumerate(_polluters(PageTemplate)):
+        n += 1
+        try:
+            pol()
+        except Exception:   # noqa
+            pass
+        after = _render_probes(PageTemplate, PageTextTemplate)
+        n += len(after)
+        if after != base:
+            j = next(i for i in range(len(base)) if after[i] != base[i])
+            ctx.violation("%s: after a template with options of its own (configuration %d of harness/isolation.py) was compiled and "
+                          "rendered, the template %r renders %r; before it rendered %r (a template's configuration reaches other templates)" % (
+                              label, k + 1, (PROBES[j][0] if j < len(PROBES) else "(text template)"), after[j], base[j]),
+                          dict(kind="isolation", polluter=k + 1, probe=(PROBES[j][0] if j < len(PROBES) else "text"), got=after[j], want=base[j]))
+            return n
     return n
